@@ -130,30 +130,34 @@ theorem setitem_wf (x r : FArr α) (hx : WF x) (key : Key) (rhs : FArr.Rhs α)
     cases h
     exact ⟨⟨hx.1, by rw [hset _ _ _ hnv]; exact hx.2⟩, rfl⟩
   | nd v =>
-    cases key with
-    | ellipsis =>
+    by_cases hw : key.whole Gen.emptyKeyIsWholeArray = true
+    · simp only [hw, if_true] at h
       obtain ⟨h1, h2⟩ := FArr.mk?_wf _ _ _ h
       subst h1; exact ⟨h2, rfl⟩
-    | dict kvs =>
-      simp only [Option.bind_eq_some_iff] at h
+    · simp only [hw, Bool.false_eq_true, if_false, Option.bind_eq_some_iff] at h
       obtain ⟨_, _, nv, hnv, h⟩ := h
       cases h
       exact ⟨⟨hx.1, by rw [hset _ _ _ hnv]; exact hx.2⟩, rfl⟩
-    | tuple its =>
-      simp only [Option.bind_eq_some_iff] at h
-      obtain ⟨_, _, nv, hnv, h⟩ := h
-      cases h
-      exact ⟨⟨hx.1, by rw [hset _ _ _ hnv]; exact hx.2⟩, rfl⟩
-    | single it =>
-      simp only [Option.bind_eq_some_iff] at h
-      obtain ⟨_, _, nv, hnv, h⟩ := h
-      cases h
-      exact ⟨⟨hx.1, by rw [hset _ _ _ hnv]; exact hx.2⟩, rfl⟩
-    | slice =>
-      simp only [Option.bind_eq_some_iff] at h
-      obtain ⟨_, _, nv, hnv, h⟩ := h
-      cases h
-      exact ⟨⟨hx.1, by rw [hset _ _ _ hnv]; exact hx.2⟩, rfl⟩
+
+/-- whole-array assignment under every spelling of "the whole array" (`...`, `{}`, `()`) goes through
+`set_values` in the code as it stands (regenerated from `__setitem__`): an ndarray of another shape is
+rejected, never broadcast (D31 before the repair) -/
+theorem source_whole_array_keys : Gen.emptyKeyIsWholeArray = true := by decide
+
+/-- under such a key an ndarray is stored only as a well-formed array over the same dimensions -/
+theorem setitem_whole_nd_exact (x r : FArr α) (key : Key) (v : ND α)
+    (hk : key.whole Gen.emptyKeyIsWholeArray = true) (h : x.setitem? key (.nd v) = some r) :
+    r.dims = x.dims ∧ r.values = v ∧ v.shape = DimSet.shape x.dims := by
+  unfold FArr.setitem? at h
+  simp only [Option.bind_eq_bind, Option.bind_eq_some_iff] at h
+  obtain ⟨hd, _, plan, _, h⟩ := h
+  simp only [hk, if_true] at h
+  unfold FArr.mk? at h
+  split at h
+  · rename_i hc
+    cases h
+    exact ⟨rfl, rfl, hc.2⟩
+  · cases h
 
 end ops
 
